@@ -320,6 +320,11 @@ func runC08(c *Ctx) {
 			in.Exec(fn, args, nil, o.H.Clone())
 		}
 	}
+	// the hop-by-hop decoder is named by the property among the decoders that are handed byte strings directly: no IsValid
+	if fn := c.A.Method("", "HopByHopExtensionHeader", "ParseHopByHopExtensions"); fn != nil {
+		sink.root = "(HopByHopExtensionHeader).ParseHopByHopExtensions arbitrary"
+		in.Exec(fn, []absint.Value{arb("P")}, nil, absint.NewHeap())
+	}
 	// DHCP4.ParseOptions on arbitrary bytes (no IsValid): it is exported and used on reply buffers
 	if fn := c.A.Method("", "DHCP4", "ParseOptions"); fn != nil {
 		sink.root = "(DHCP4).ParseOptions arbitrary"
